@@ -22,8 +22,26 @@ Definition uuid_model (v : tval) : list id := ugen false (vnat (vnth 1 v)) (map 
 Definition check_uuid (v : tval) : bool := all2 N.eqb (uuid_model v) (map vn (vl (vnth 3 v))).
 Definition is_uuid_case (v : tval) : bool := match vnth 0 v with VN 9 => true | _ => false end.
 
+(* node case = [ 8 ; threads ; sched ; free ; markers_observed ]: the NodeIDAllocator history in the same vocabulary.  Candidates = the
+   range in order, attempts = the size of the range, ids taken beforehand = every slot of the range not listed in `free`. *)
+Definition node_range : nat := N.to_nat (NodeIDMax - NodeIDMin + 1).
+Definition node_pre (free : list N) : markers :=
+  fun k => N.leb NodeIDMin k && N.leb k NodeIDMax && negb (existsb (N.eqb k) free).
+Definition dec_thread_node (v : tval) : gen :=
+  init_gen node_range (dec_ops (vnth 0 v)) (map vn (vl (vnth 1 v))) (map vbool (vl (vnth 2 v))).
+Definition is_node_case (v : tval) : bool := match vnth 0 v with VN 8 => true | _ => false end.
+Definition node_run (v : tval) : markers * list gen :=
+  grun node_range (node_pre (map vn (vl (vnth 3 v)))) (map dec_thread_node (vl (vnth 1 v))) (map vnat (vl (vnth 2 v))).
+Definition check_node (v : tval) : bool :=
+  let '(m, ts) := node_run v in
+  all2 (fun g tv => all2 pair_eqb (rev (map enc_res (log g))) (dec_log (vnth 3 tv))) ts (vl (vnth 1 v))
+  && forallb (fun k => Bool.eqb (m (N.of_nat k)) (existsb (N.eqb (N.of_nat k)) (map vn (vl (vnth 4 v)))))
+             (seq 0 (S (N.to_nat NodeIDMax)))
+  && forallb (fun g => match skip_noops (ops g) (held g) with [] => true | _ => false end) ts.
+
 Definition check (v : tval) : bool :=
   if is_uuid_case v then check_uuid v else
+  if is_node_case v then check_node v else
   let '(m, ts) := model_run v in
   all2 (fun g tv => all2 pair_eqb (rev (map enc_res (log g))) (dec_log (vnth 3 tv))) ts (vl (vnth 0 v))
   && forallb (fun k => Bool.eqb (m (N.of_nat k)) (existsb (N.eqb (N.of_nat k)) (map vn (vl (vnth 4 v)))))
@@ -33,6 +51,10 @@ Definition check (v : tval) : bool :=
 
 Definition predict (v : tval) : tval :=
   if is_uuid_case v then VL (map VN (uuid_model v)) else
+  if is_node_case v then
+    let '(m, ts) := node_run v in
+    VL [VL (map (fun g => VL (map (fun r => VL [VN (fst (enc_res r)); VN (snd (enc_res r))]) (rev (log g)))) ts);
+        VL (map (fun k => VN (N.of_nat k)) (filter (fun k => m (N.of_nat k)) (seq 0 (S (N.to_nat NodeIDMax)))))] else
   let '(m, ts) := model_run v in
   VL [VL (map (fun g => VL (map (fun r => VL [VN (fst (enc_res r)); VN (snd (enc_res r))]) (rev (log g)))) ts);
       VL (map (fun k => VN (N.of_nat k)) (filter (fun k => m (N.of_nat k)) (seq 0 (vnat (vnth 3 v)))))].
